@@ -149,11 +149,13 @@ theorem mDel_inv (s : State) (r arg : String) (h : Inv s) : Inv (mDel s r arg).1
   have h1 := setRepo_inv s _ h (repo_ok s r h)
   split
   · exact h1
-  · apply indexRemove_inv
-    repeat' split
-    all_goals first
-      | exact h1
-      | exact referrerDelete_inv _ _ _ _ h1
+  · split
+    · exact h1
+    · apply indexRemove_inv
+      repeat' split
+      all_goals first
+        | exact h1
+        | exact referrerDelete_inv _ _ _ _ h1
 
 theorem mGet_inv (s : State) (r arg : String) (acc : List String) (head : Bool) (rng : String) (h : Inv s) : Inv (mGet s r arg acc head rng).1 := by
   unfold mGet
